@@ -382,38 +382,17 @@ Definition xir_param_ok (tdm : bool) (nv : nat) (v : val) : bool :=
   | _ => false
   end.
 
-(* dictionary value (phi / select / dark_counts) *)
-Definition xir_mval_ok (tdm : bool) (nv : nat) (v : val) : bool :=
-  if tdm then
-    match v with
-    | VSeq _ => true
-    | VStr (SLit _) => true
-    | _ => false
-    end
-  else mval_ok v.
-
-Definition xir_phi_ok (tdm : bool) (nv : nat) (v : val) : bool :=
-  if tdm then
-    match v with
-    | VSym e => is_loop_atom nv e
-    | v => xir_mval_ok true nv v
-    end
-  else
-    match v with
-    | VSym e => conv_id e
-    | v => plain_val v
-    end.
-
+(* gates may be daggered (written as `inv`); measurements have no dagger *)
 Definition xir_cmd_ok (tdm : bool) (nv : nat) (c : cmd) : bool :=
-  negb (dag c) &&
   match cls c with
   | OGate _ => forallb (xir_param_ok tdm nv) (params c) && is_none (sel c) && is_none (dark c)
   | OMeas k =>
+      negb (dag c) &&
       match k, params c with
-      | MHom, [phi] => xir_phi_ok tdm nv phi && optb (xir_mval_ok tdm nv) (sel c) && is_none (dark c)
+      | MHom, [phi] => mval_ok phi && optb mval_ok (sel c) && is_none (dark c)
       | MHom, _ => false
-      | MFock, [] => optb (xir_mval_ok tdm nv) (sel c) && optb (xir_mval_ok tdm nv) (dark c)
-      | _, [] => optb (xir_mval_ok tdm nv) (sel c) && is_none (dark c)
+      | MFock, [] => optb mval_ok (sel c) && optb mval_ok (dark c)
+      | _, [] => optb mval_ok (sel c) && is_none (dark c)
       | _, _ => false
       end
   | OFourier => false
@@ -455,36 +434,92 @@ Proof.
   rewrite Hx. simpl. rewrite IH. reflexivity.
 Qed.
 
-Lemma xir_mval_tdm nv v :
-  xir_mval_ok true nv v = true -> par_convert1 v = Ok v /\ tdm_dict_val nv v = Ok v.
+(* a dictionary value: par_convert, then (TDM reader) the loop-variable lookup, give the value back *)
+Lemma mval_dict nv v : mval_ok v = true -> bind (par_convert1 v) (tdm_dict_val nv) = Ok v.
 Proof.
-  destruct v as [i|i|s|e|e]; simpl; intros H; try discriminate.
-  - split; reflexivity.
-  - destruct s; try discriminate. split; reflexivity.
+  intros H. rewrite (mval_ok_conv v H). simpl.
+  destruct v as [i|i|s|e|e]; simpl in *; try reflexivity; try discriminate.
+  destruct s; try discriminate. reflexivity.
 Qed.
 
-Lemma xir_optM_tdm nv (o : option val) :
-  optb (xir_mval_ok true nv) o = true ->
-  optM par_convert1 o = Ok o /\ optM (tdm_dict_val nv) o = Ok o.
+Lemma mval_dict_opt nv (o : option val) :
+  optb mval_ok o = true -> bind (optM par_convert1 o) (optM (tdm_dict_val nv)) = Ok o.
 Proof.
-  destruct o as [v|]; simpl; intros H; [|split; reflexivity].
-  destruct (xir_mval_tdm nv v H) as [H1 H2]. rewrite H1, H2. split; reflexivity.
+  destruct o as [v|]; simpl; intros H; [|reflexivity].
+  pose proof (mval_dict nv v H) as Hd. rewrite (mval_ok_conv v H) in *. simpl in *. rewrite Hd. reflexivity.
 Qed.
 
-Lemma nonempty_match {A B} (l : list A) (x y : B) : l <> [] -> match l with [] => x | _ :: _ => y end = y.
+(* the homodyne angle as to_xir writes it *)
+Definition xir_phi (nv : nat) (phi : val) : val :=
+  match phi with
+  | VSym e => if is_loop_atom nv e then match e with EAtom (AFree n) => VStr (SName n) | _ => phi end else phi
+  | _ => phi
+  end.
+
+Lemma xir_phi_tdm nv phi : mval_ok phi = true -> bind (par_convert1 (xir_phi nv phi)) (tdm_dict_val nv) = Ok phi.
+Proof.
+  intros H. destruct phi as [i|i|s|e|e]; try exact (mval_dict nv _ H).
+  unfold xir_phi. destruct (is_loop_atom nv e) eqn:Hl; [|exact (mval_dict nv _ H)].
+  destruct (is_loop_atom_inv nv e Hl) as [i [-> Hi]]. simpl. rewrite Hi. reflexivity.
+Qed.
+
+Lemma xir_phi_plain phi : xir_phi 0 phi = phi.
+Proof.
+  destruct phi as [i|i|s|e|e]; try reflexivity.
+  destruct e as [a|z|f e|f a b]; try reflexivity. destruct a as [n|m]; try reflexivity. destruct n; reflexivity.
+Qed.
+
+Lemma apply_inv_noinv s r : xinv s = false -> apply_inv s r = r.
+Proof. intros H. unfold apply_inv. rewrite H. destruct r; reflexivity. Qed.
+
+Lemma stmt_plain_list i l ms d :
+  l <> [] ->
+  from_xir_stmt (mkX (OGate i) l None None None ms d)
+  = apply_inv (mkX (OGate i) l None None None ms d)
+      (bind (mapM from_xir_list_param l) (fun l1 => bind (mapM par_convert1 l1) (fun l2 => construct (OGate i) l2 None None ms))).
 Proof. destruct l; [intros H; exfalso; apply H; reflexivity | reflexivity]. Qed.
 
-Lemma stmt_tdm_list nv i l ms :
+Lemma stmt_tdm_list nv i l ms d :
   l <> [] ->
-  from_xir_stmt_tdm nv (mkX (OGate i) l None None None ms)
-  = bind (mapM (tdm_list_val nv) l) (fun l1 => bind (mapM par_convert1 l1) (fun l2 => construct (OGate i) l2 None None ms)).
+  from_xir_stmt_tdm nv (mkX (OGate i) l None None None ms d)
+  = apply_inv (mkX (OGate i) l None None None ms d)
+      (bind (mapM (tdm_list_val nv) l) (fun l1 => bind (mapM par_convert1 l1) (fun l2 => construct (OGate i) l2 None None ms))).
 Proof. destruct l; [intros H; exfalso; apply H; reflexivity | reflexivity]. Qed.
 
-Lemma stmt_plain_list i l ms :
-  l <> [] ->
-  from_xir_stmt (mkX (OGate i) l None None None ms)
-  = bind (mapM from_xir_list_param l) (fun l1 => bind (mapM par_convert1 l1) (fun l2 => construct (OGate i) l2 None None ms)).
-Proof. destruct l; [intros H; exfalso; apply H; reflexivity | reflexivity]. Qed.
+Lemma apply_inv_gate i l ms d s :
+  xinv s = d -> apply_inv s (Ok (mkCmd (OGate i) l ms false None None)) = Ok (mkCmd (OGate i) l ms d None None).
+Proof. intros <-. unfold apply_inv. simpl. destruct (xinv s); reflexivity. Qed.
+
+(* the reader on a measurement statement (no `inv`), in terms of the converted dictionary values *)
+Lemma stmt_meas_plain k phi se da ms :
+  (k = MHom -> phi <> None) ->
+  from_xir_stmt (mkX (OMeas k) [] phi se da ms false)
+  = bind (optM par_convert1 phi) (fun phi' => bind (optM par_convert1 se) (fun se' => bind (optM par_convert1 da) (fun da' =>
+      construct_meas_kw (OMeas k) phi' se' da' ms))).
+Proof.
+  intros Hk. unfold from_xir_stmt. rewrite apply_inv_noinv by reflexivity. unfold has_dict. simpl.
+  destruct phi as [p|], se as [s|], da as [d|]; try reflexivity.
+  all: destruct k; try reflexivity; exfalso; apply Hk; reflexivity.
+Qed.
+
+Lemma stmt_meas_tdm nv k phi se da ms phi' se' da' :
+  (k = MHom -> phi <> None) ->
+  bind (optM par_convert1 phi) (optM (tdm_dict_val nv)) = Ok phi' ->
+  bind (optM par_convert1 se) (optM (tdm_dict_val nv)) = Ok se' ->
+  bind (optM par_convert1 da) (optM (tdm_dict_val nv)) = Ok da' ->
+  from_xir_stmt_tdm nv (mkX (OMeas k) [] phi se da ms false) = construct_meas_kw (OMeas k) phi' se' da' ms.
+Proof.
+  intros Hk H1 H2 H3. unfold from_xir_stmt_tdm. rewrite apply_inv_noinv by reflexivity.
+  unfold has_dict. cbn [xname xphi xsel xdark xlist xwires].
+  destruct (optM par_convert1 phi) as [x1|] eqn:E1; cbn [bind] in H1; [|discriminate].
+  destruct (optM par_convert1 se) as [x2|] eqn:E2; cbn [bind] in H2; [|discriminate].
+  destruct (optM par_convert1 da) as [x3|] eqn:E3; cbn [bind] in H3; [|discriminate].
+  destruct phi as [p|], se as [s|], da as [d|].
+  all: try (cbn [bind]; rewrite H1, H2, H3; reflexivity).
+  all: simpl in *; inversion E1; inversion E2; inversion E3; subst; simpl in *;
+       inversion H1; inversion H2; inversion H3; subst;
+       destruct k; try reflexivity; exfalso; apply Hk; reflexivity.
+Qed.
 
 Lemma xir_cmd_roundtrip tdm nv c :
   xir_cmd_ok tdm nv c = true ->
@@ -492,108 +527,61 @@ Lemma xir_cmd_roundtrip tdm nv c :
   xir_reader tdm nv (to_xir_cmd nv c) = Ok c.
 Proof.
   destruct c as [cl ps ms dg se da]. unfold xir_cmd_ok. simpl.
-  intros H Hnv. apply andb_true_iff in H. destruct H as [Hd H]. apply negb_true_iff in Hd. subst dg.
+  intros H Hnv.
   destruct cl as [i| |k|i]; try discriminate.
-  - (* generic operation *)
+  - (* generic operation, possibly daggered *)
     apply andb_true_iff in H. destruct H as [H Hda]. apply andb_true_iff in H. destruct H as [Hp Hse].
     apply is_none_true in Hse. apply is_none_true in Hda. subst se da.
     unfold to_xir_cmd. simpl. destruct tdm.
     + pose proof (xir_params_tdm nv ps Hp) as Hx.
-      destruct ps as [|v ps']; [reflexivity|].
-      unfold xir_reader. rewrite stmt_tdm_list by (simpl; discriminate).
-      destruct (mapM (tdm_list_val nv) (map xir_conv_param (v :: ps'))) as [l1|]; [|discriminate].
-      cbn [bind] in *. rewrite Hx. reflexivity.
+      destruct ps as [|v ps'].
+      * unfold xir_reader, from_xir_stmt_tdm. simpl. destruct dg; reflexivity.
+      * unfold xir_reader. rewrite stmt_tdm_list by (simpl; discriminate).
+        destruct (mapM (tdm_list_val nv) (map xir_conv_param (v :: ps'))) as [l1|]; [|discriminate].
+        cbn [bind] in *. rewrite Hx. cbn [bind construct]. apply apply_inv_gate. reflexivity.
     + rewrite (Hnv eq_refl) in *.
       destruct (xir_params_plain ps Hp) as [H1 [H2 H3]]. rewrite H1.
-      destruct ps as [|v ps']; [reflexivity|].
-      unfold xir_reader. rewrite stmt_plain_list by discriminate.
-      rewrite H2. cbn [bind]. rewrite H3. reflexivity.
+      destruct ps as [|v ps'].
+      * unfold xir_reader, from_xir_stmt. simpl. destruct dg; reflexivity.
+      * unfold xir_reader. rewrite stmt_plain_list by discriminate.
+        rewrite H2. cbn [bind]. rewrite H3. cbn [bind construct]. apply apply_inv_gate. reflexivity.
   - (* measurement *)
-    unfold to_xir_cmd. simpl.
+    apply andb_true_iff in H. destruct H as [Hd H]. apply negb_true_iff in Hd. subst dg.
+    unfold to_xir_cmd. cbn [cls is_meas params sel dark modes].
+    assert (Hread : forall phi0 phi da0,
+               (k = MHom -> phi0 <> None) ->
+               (if tdm then bind (optM par_convert1 phi0) (optM (tdm_dict_val nv)) else optM par_convert1 phi0) = Ok phi ->
+               optb mval_ok se = true -> optb mval_ok da0 = true ->
+               xir_reader tdm nv (mkX (OMeas k) [] phi0 se da0 ms false) = construct_meas_kw (OMeas k) phi se da0 ms).
+    { intros phi0 phi da0 Hk Hphi Hs Hdk. unfold xir_reader. destruct tdm.
+      - exact (stmt_meas_tdm nv k phi0 se da0 ms phi se da0 Hk Hphi (mval_dict_opt nv se Hs) (mval_dict_opt nv da0 Hdk)).
+      - rewrite stmt_meas_plain by exact Hk. rewrite Hphi. cbn [bind].
+        rewrite (optM_conv_plain se Hs). cbn [bind]. rewrite (optM_conv_plain da0 Hdk). reflexivity. }
     destruct k.
     + (* MeasureFock *)
-      destruct ps; [|discriminate]. apply andb_true_iff in H. destruct H as [Hse Hda]. simpl.
-      destruct tdm.
-      * destruct (xir_optM_tdm nv se Hse) as [A1 A2]. destruct (xir_optM_tdm nv da Hda) as [B1 B2].
-        unfold xir_reader, from_xir_stmt_tdm, has_dict. simpl.
-        destruct se as [s|], da as [d|]; simpl in *.
-        -- destruct (par_convert1 s); simpl in A1; [|discriminate]. inversion A1; subst.
-           destruct (par_convert1 d); simpl in B1; [|discriminate]. inversion B1; subst. simpl.
-           destruct (tdm_dict_val nv s); simpl in A2; [|discriminate]. inversion A2; subst.
-           destruct (tdm_dict_val nv d); simpl in B2; [|discriminate]. inversion B2; subst. reflexivity.
-        -- destruct (par_convert1 s); simpl in A1; [|discriminate]. inversion A1; subst. simpl.
-           destruct (tdm_dict_val nv s); simpl in A2; [|discriminate]. inversion A2; subst. reflexivity.
-        -- destruct (par_convert1 d); simpl in B1; [|discriminate]. inversion B1; subst. simpl.
-           destruct (tdm_dict_val nv d); simpl in B2; [|discriminate]. inversion B2; subst. reflexivity.
-        -- reflexivity.
-      * unfold xir_reader, from_xir_stmt, has_dict. simpl. unfold xir_mval_ok in Hse, Hda.
-        pose proof (optM_conv_plain se Hse) as A1. pose proof (optM_conv_plain da Hda) as B1.
-        destruct se as [s|], da as [d|]; simpl in *.
-        -- destruct (par_convert1 s); simpl in A1; [|discriminate]. inversion A1; subst.
-           destruct (par_convert1 d); simpl in B1; [|discriminate]. inversion B1; subst. reflexivity.
-        -- destruct (par_convert1 s); simpl in A1; [|discriminate]. inversion A1; subst. reflexivity.
-        -- destruct (par_convert1 d); simpl in B1; [|discriminate]. inversion B1; subst. reflexivity.
-        -- reflexivity.
+      destruct ps; [|discriminate]. apply andb_true_iff in H. destruct H as [Hse Hda].
+      rewrite (Hread None None da); try assumption; try discriminate; [reflexivity | destruct tdm; reflexivity].
     + (* MeasureHomodyne *)
       destruct ps as [|phi ps]; [discriminate|]. destruct ps; [|discriminate].
       apply andb_true_iff in H. destruct H as [H Hda]. apply andb_true_iff in H. destruct H as [Hphi Hse].
-      apply is_none_true in Hda. subst da. simpl.
-      destruct tdm.
-      * destruct (xir_optM_tdm nv se Hse) as [A1 A2].
-        unfold xir_reader, from_xir_stmt_tdm, has_dict. simpl.
-        assert (Hphi' : exists w, (match phi with
-                          | VSym e => if is_loop_atom nv e then match e with EAtom (AFree n) => VStr (SName n) | _ => phi end else phi
-                          | _ => phi end) = w /\ bind (par_convert1 w) (tdm_dict_val nv) = Ok phi).
-        { destruct phi as [i|i|s|e|e]; simpl in Hphi; try discriminate.
-          - eexists; split; reflexivity.
-          - destruct s; try discriminate. eexists; split; reflexivity.
-          - destruct (is_loop_atom_inv nv e Hphi) as [i [-> Hi]]. simpl. rewrite Hi. eexists; split; [reflexivity|]. simpl. rewrite Hi. reflexivity. }
-        destruct Hphi' as [w [-> Hw]].
-        destruct (par_convert1 w) as [w1|]; simpl in Hw; [|discriminate]. simpl.
-        destruct se as [s|]; simpl in *.
-        -- destruct (par_convert1 s); simpl in A1; [|discriminate]. inversion A1; subst. simpl.
-           rewrite Hw. simpl. destruct (tdm_dict_val nv s); simpl in A2; [|discriminate]. inversion A2; subst. reflexivity.
-        -- rewrite Hw. reflexivity.
-      * rewrite (Hnv eq_refl) in *. unfold xir_reader, from_xir_stmt, has_dict. simpl.
-        assert (Hphi' : (match phi with
-                          | VSym e => if is_loop_atom 0 e then match e with EAtom (AFree n) => VStr (SName n) | _ => phi end else phi
-                          | _ => phi end) = phi).
-        { destruct phi as [i|i|s|e|e]; try reflexivity.
-          destruct e as [a|z|f e|f a b]; try reflexivity. destruct a as [n|m]; try reflexivity. destruct n; reflexivity. }
-        rewrite Hphi'.
-        assert (Hc : par_convert1 phi = Ok phi).
-        { destruct phi as [i|i|s|e|e]; simpl in Hphi; try discriminate; try reflexivity.
-          simpl. rewrite (conv_id_ok e Hphi). reflexivity. }
-        rewrite Hc. simpl. unfold xir_mval_ok in Hse. pose proof (optM_conv_plain se Hse) as A1.
-        destruct se as [s|]; simpl in *.
-        -- destruct (par_convert1 s); simpl in A1; [|discriminate]. inversion A1; subst. reflexivity.
-        -- reflexivity.
+      apply is_none_true in Hda. subst da.
+      change (match phi with
+              | VSym e => if is_loop_atom nv e then match e with EAtom (AFree n) => VStr (SName n) | _ => phi end else phi
+              | _ => phi end) with (xir_phi nv phi).
+      rewrite (Hread (Some (xir_phi nv phi)) (Some phi) None); try assumption; try reflexivity.
+      * intros _. discriminate.
+      * destruct tdm.
+        -- pose proof (xir_phi_tdm nv phi Hphi) as Hx. simpl.
+           destruct (par_convert1 (xir_phi nv phi)) as [w|]; simpl in *; [|discriminate]. rewrite Hx. reflexivity.
+        -- rewrite (Hnv eq_refl). rewrite xir_phi_plain. simpl. rewrite (mval_ok_conv phi Hphi). reflexivity.
     + (* MeasureHeterodyne *)
       destruct ps; [|discriminate]. apply andb_true_iff in H. destruct H as [Hse Hda].
-      apply is_none_true in Hda. subst da. simpl.
-      destruct tdm.
-      * destruct (xir_optM_tdm nv se Hse) as [A1 A2].
-        unfold xir_reader, from_xir_stmt_tdm, has_dict. simpl.
-        destruct se as [s|]; simpl in *; [|reflexivity].
-        destruct (par_convert1 s); simpl in A1; [|discriminate]. inversion A1; subst. simpl.
-        destruct (tdm_dict_val nv s); simpl in A2; [|discriminate]. inversion A2; subst. reflexivity.
-      * unfold xir_reader, from_xir_stmt, has_dict. simpl. unfold xir_mval_ok in Hse.
-        pose proof (optM_conv_plain se Hse) as A1.
-        destruct se as [s|]; simpl in *; [|reflexivity].
-        destruct (par_convert1 s); simpl in A1; [|discriminate]. inversion A1; subst. reflexivity.
+      apply is_none_true in Hda. subst da.
+      rewrite (Hread None None None); try assumption; try discriminate; try reflexivity. destruct tdm; reflexivity.
     + (* MeasureThreshold *)
       destruct ps; [|discriminate]. apply andb_true_iff in H. destruct H as [Hse Hda].
-      apply is_none_true in Hda. subst da. simpl.
-      destruct tdm.
-      * destruct (xir_optM_tdm nv se Hse) as [A1 A2].
-        unfold xir_reader, from_xir_stmt_tdm, has_dict. simpl.
-        destruct se as [s|]; simpl in *; [|reflexivity].
-        destruct (par_convert1 s); simpl in A1; [|discriminate]. inversion A1; subst. simpl.
-        destruct (tdm_dict_val nv s); simpl in A2; [|discriminate]. inversion A2; subst. reflexivity.
-      * unfold xir_reader, from_xir_stmt, has_dict. simpl. unfold xir_mval_ok in Hse.
-        pose proof (optM_conv_plain se Hse) as A1.
-        destruct se as [s|]; simpl in *; [|reflexivity].
-        destruct (par_convert1 s); simpl in A1; [|discriminate]. inversion A1; subst. reflexivity.
+      apply is_none_true in Hda. subst da.
+      rewrite (Hread None None None); try assumption; try discriminate; try reflexivity. destruct tdm; reflexivity.
 Qed.
 
 (* ------------------------------------------------------------------ XIR: whole program *)
@@ -607,16 +595,18 @@ Qed.
 Definition xir_prog_ok (p : prog) : bool :=
   match ptdm p with
   | None =>
-      is_none (ptarget p)
-      && forallb (xir_cmd_ok false 0) (pcirc p)
+      forallb (xir_cmd_ok false 0) (pcirc p)
       && negb (match flat_map modes (pcirc p) with [] => true | _ => false end)
       && Nat.eqb (list_max (flat_map modes (pcirc p)) + 1) (pn p)
   | Some t =>
-      is_none (pcutoff p) && is_none (tshift t)
+      is_none (tshift t)
       && forallb (xir_cmd_ok true (length (tarrays t))) (pcirc p)
       && negb (match tN t with [] => true | _ => false end)
       && Nat.eqb (list_sum (tN t)) (pn p)
   end.
+
+Lemma opt_or_none {A} (o : option A) : match o with Some t => Some t | None => None end = o.
+Proof. destruct o; reflexivity. Qed.
 
 Lemma xir_roundtrip_ok p : xir_prog_ok p = true -> xir_roundtrip p = Ok p.
 Proof.
@@ -624,17 +614,16 @@ Proof.
   destruct td as [t|]; simpl.
   - destruct t as [N arrs shf]. simpl. intros H.
     apply andb_true_iff in H. destruct H as [H Hn]. apply andb_true_iff in H. destruct H as [H HN].
-    apply andb_true_iff in H. destruct H as [H Hc]. apply andb_true_iff in H. destruct H as [Hcu Hsh].
-    apply is_none_true in Hcu. apply is_none_true in Hsh. subst cu shf. apply Nat.eqb_eq in Hn. subst n.
+    apply andb_true_iff in H. destruct H as [Hsh Hc].
+    apply is_none_true in Hsh. subst shf. apply Nat.eqb_eq in Hn. subst n.
     destruct N as [|a N']; [discriminate|].
     rewrite mapM_map.
     rewrite (mapM_ext_in _ (fun c => Ok c)).
-    + rewrite (mapM_id (fun c => Ok c)); [reflexivity | intros; reflexivity].
+    + rewrite (mapM_id (fun c => Ok c)); [|intros; reflexivity]. simpl. rewrite opt_or_none. reflexivity.
     + intros c Hin. rewrite forallb_forall in Hc.
       exact (xir_cmd_roundtrip true (length arrs) c (Hc c Hin) (fun E => match Bool.diff_true_false E with end)).
   - intros H.
-    apply andb_true_iff in H. destruct H as [H Hn]. apply andb_true_iff in H. destruct H as [H Hne].
-    apply andb_true_iff in H. destruct H as [Htg Hc]. apply is_none_true in Htg. subst tg.
+    apply andb_true_iff in H. destruct H as [H Hn]. apply andb_true_iff in H. destruct H as [Hc Hne].
     apply Nat.eqb_eq in Hn. subst n. unfold from_xir_plain. simpl. rewrite to_xir_wires.
     destruct (flat_map modes circ) as [|w ws] eqn:Hw; [discriminate|].
     rewrite mapM_map.
@@ -644,80 +633,18 @@ Proof.
       exact (xir_cmd_roundtrip false 0 c (Hc c Hin) (fun _ => eq_refl)).
 Qed.
 
-(* ------------------------------------------------------------------ XIR: what never survives *)
+(* ------------------------------------------------------------------ XIR: what still never survives *)
 
-Lemma construct_meas_kw_dag c phi ks kd ms r : construct_meas_kw c phi ks kd ms = Ok r -> dag r = false.
+Lemma xir_tdm_shift_never_survives p p' :
+  xir_roundtrip p = Ok p' -> forall t', ptdm p' = Some t' -> tshift t' = None.
 Proof.
-  unfold construct_meas_kw. destruct c as [i| |k|i]; try discriminate.
-  destruct k; destruct phi; try discriminate; apply construct_dag.
+  unfold xir_roundtrip, from_xir, to_xir. simpl. intros H.
+  destruct (ptdm p) as [t|]; simpl in H.
+  - destruct (tN t); [discriminate|].
+    destruct (mapM _ _); simpl in H; [|discriminate]. inversion H; subst. simpl.
+    intros t' E. inversion E; subst. reflexivity.
+  - unfold from_xir_plain in H. simpl in H. destruct (all_wires _); [discriminate|].
+    destruct (mapM _ _); simpl in H; [|discriminate]. inversion H; subst. simpl. discriminate.
 Qed.
 
-Lemma from_xir_stmt_dag s c : from_xir_stmt s = Ok c -> dag c = false.
-Proof.
-  unfold from_xir_stmt.
-  destruct (xname s) as [i| |k|i] eqn:Hn; try discriminate;
-  (destruct (has_dict s);
-   [ destruct (optM par_convert1 (xphi s)); cbn [bind]; [|discriminate];
-     destruct (optM par_convert1 (xsel s)); cbn [bind]; [|discriminate];
-     destruct (optM par_convert1 (xdark s)); cbn [bind]; [|discriminate];
-     apply construct_meas_kw_dag
-   | destruct (xlist s) as [|v l];
-     [ | destruct (mapM from_xir_list_param (v :: l)) as [l1|]; cbn [bind]; [|discriminate];
-         destruct (mapM par_convert1 l1); cbn [bind]; [|discriminate]; apply construct_dag ] ]).
-  - apply construct_dag.
-  - apply construct_dag.
-  - destruct k; try discriminate; apply construct_dag.
-Qed.
-
-Lemma from_xir_stmt_tdm_dag nv s c : from_xir_stmt_tdm nv s = Ok c -> dag c = false.
-Proof.
-  unfold from_xir_stmt_tdm.
-  destruct (xname s) as [i| |k|i] eqn:Hn; try discriminate;
-  (destruct (has_dict s);
-   [ destruct (optM par_convert1 (xphi s)) as [a1|]; cbn [bind]; [|discriminate];
-     destruct (optM par_convert1 (xsel s)) as [a2|]; cbn [bind]; [|discriminate];
-     destruct (optM par_convert1 (xdark s)) as [a3|]; cbn [bind]; [|discriminate];
-     destruct (optM (tdm_dict_val nv) a1); cbn [bind]; [|discriminate];
-     destruct (optM (tdm_dict_val nv) a2); cbn [bind]; [|discriminate];
-     destruct (optM (tdm_dict_val nv) a3); cbn [bind]; [|discriminate];
-     apply construct_meas_kw_dag
-   | destruct (xlist s) as [|v l];
-     [ | destruct (mapM (tdm_list_val nv) (v :: l)) as [l1|]; cbn [bind]; [|discriminate];
-         destruct (mapM par_convert1 l1); cbn [bind]; [|discriminate]; apply construct_dag ] ]).
-  - apply construct_dag.
-  - apply construct_dag.
-  - destruct k; try discriminate; apply construct_dag.
-Qed.
-
-Lemma xir_dagger_never_survives p p' :
-  xir_roundtrip p = Ok p' -> forall c, In c (pcirc p') -> dag c = false.
-Proof.
-  unfold xir_roundtrip, from_xir. destruct (xtype_tdm (to_xir p)) as [[N arrs]|].
-  - destruct N; [discriminate|].
-    destruct (mapM (from_xir_stmt_tdm (length arrs)) (xstmts (to_xir p))) as [cs|] eqn:Hm; simpl; [|discriminate].
-    intros H. inversion H; subst. simpl. intros c Hc.
-    destruct (mapM_In _ _ _ Hm c Hc) as [s [_ Hs]]. exact (from_xir_stmt_tdm_dag _ _ _ Hs).
-  - unfold from_xir_plain. destruct (all_wires (xstmts (to_xir p))); [discriminate|].
-    destruct (mapM from_xir_stmt (xstmts (to_xir p))) as [cs|] eqn:Hm; simpl; [|discriminate].
-    intros H. inversion H; subst. simpl. intros c Hc.
-    destruct (mapM_In _ _ _ Hm c Hc) as [s [_ Hs]]. exact (from_xir_stmt_dag _ _ Hs).
-Qed.
-
-Lemma xir_target_never_survives p p' :
-  xir_roundtrip p = Ok p' -> ptdm p = None -> ptarget p' = None.
-Proof.
-  unfold xir_roundtrip, from_xir, to_xir. simpl. intros H Ht. rewrite Ht in H. simpl in H.
-  unfold from_xir_plain in H. simpl in H.
-  destruct (all_wires _); [discriminate|].
-  destruct (mapM from_xir_stmt _); simpl in H; [|discriminate]. inversion H; subst. reflexivity.
-Qed.
-
-Lemma xir_tdm_cutoff_never_survives p p' :
-  xir_roundtrip p = Ok p' -> ptdm p <> None -> pcutoff p' = None /\ (forall t', ptdm p' = Some t' -> tshift t' = None).
-Proof.
-  unfold xir_roundtrip, from_xir, to_xir. simpl. intros H Ht.
-  destruct (ptdm p) as [t|]; [|exfalso; apply Ht; reflexivity]. simpl in H.
-  destruct (tN t); [discriminate|].
-  destruct (mapM _ _); simpl in H; [|discriminate]. inversion H; subst. simpl. split; [reflexivity|].
-  intros t' E. inversion E; subst. reflexivity.
-Qed.
+(* a measurement statement is never written with `inv`, so nothing changes for measurements *)
